@@ -463,6 +463,168 @@ def buckets(kinds: dict[str, int]):
     return bw, cw, fields
 
 
+_ATTRIBUTED = re.compile(
+    r"INSERT INTO pend_attributed\(dst_step, root_kind, root_id\) WITH RECURSIVE walk\(i, root_kind, root_id\) AS "
+    r"\(SELECT dst_step, kind, src FROM pend_blocker WHERE (?P<seed>.+) UNION ALL SELECT pend_blocker\.dst_step, "
+    r"walk\.root_kind, walk\.root_id FROM walk JOIN pend_blocker ON (?P<join>.+)\) SELECT i, root_kind, root_id FROM walk")
+_UNSAFE_ANC = re.compile(
+    r"INSERT INTO pend_unsafe_anc\(dst_step, anc\) WITH RECURSIVE up\(dst_step, anc\) AS \(SELECT pend_step\.i, "
+    r"node\.creator FROM pend_step JOIN node ON node\.i = pend_step\.i WHERE (?P<seed>.+) UNION ALL SELECT "
+    r"up\.dst_step, node\.creator FROM up JOIN node ON node\.i = up\.anc JOIN step ON step\.node = up\.anc WHERE "
+    r"(?P<cont>.+)\) SELECT up\.dst_step, up\.anc FROM up JOIN step ON step\.node = up\.anc WHERE (?P<stop>.+)")
+_RUNNABLE = re.compile(
+    r"INSERT INTO pend_blocker\(dst_step, kind, src\) SELECT i, (?P<kind>\d+), i FROM pend_step WHERE (?P<where>.+)")
+WCOL_SEED = {(None, "kind"): "W_kind", (None, "src"): "W_src", (None, "dst_step"): "W_dst",
+             ("pend_blocker", "kind"): "W_kind", ("pend_blocker", "src"): "W_src", ("pend_blocker", "dst_step"): "W_dst"}
+WCOL_JOIN = {("pend_blocker", "kind"): "W_kind", ("pend_blocker", "src"): "W_src",
+             ("pend_blocker", "dst_step"): "W_dst", ("walk", "i"): "W_walk_i"}
+STEPCOL = {k: v for k, v in PSCOL.items() if k[0] == "step"}
+
+
+def attributed(pend):
+    what = "_INSERT_PEND_ATTRIBUTED"
+    m = _full(_ATTRIBUTED, norm(pend._INSERT_PEND_ATTRIBUTED), what)
+    for part in ("seed", "join"):
+        if "SELECT" in m.group(part).upper() or "UNION" in m.group(part).upper():
+            raise TranslatorError(f"{what}: the {part} condition contains another query")
+    seed, _ = where_to_coq(m.group("seed"), WCOL_SEED, what + "[seed]")
+    join, _ = where_to_coq(m.group("join"), WCOL_JOIN, what + "[join]")
+    return seed, join
+
+
+def unsafe_anc(pend):
+    what = "_INSERT_PEND_UNSAFE_ANC"
+    m = _full(_UNSAFE_ANC, norm(pend._INSERT_PEND_UNSAFE_ANC), what)
+    for part in ("seed", "cont", "stop"):
+        if "SELECT" in m.group(part).upper() or "UNION" in m.group(part).upper():
+            raise TranslatorError(f"{what}: the {part} condition contains another query")
+    seed, _ = where_to_coq(m.group("seed"), {k: v for k, v in RELATIONS["RSelf"][4].items() if k[0] == "pend_step"},
+                           what + "[seed]")
+    cont, _ = where_to_coq(m.group("cont"), STEPCOL, what + "[continue]")
+    stop, _ = where_to_coq(m.group("stop"), STEPCOL, what + "[stop]")
+    return seed, cont, stop
+
+
+def runnable(pend, kinds):
+    what = "_INSERT_PEND_BLOCKER_RUNNABLE"
+    m = _full(_RUNNABLE, norm(pend._INSERT_PEND_BLOCKER_RUNNABLE), what)
+    names = {v: k for k, v in kinds.items()}
+    if int(m.group("kind")) not in names:
+        raise TranslatorError(f"{what}: kind {m.group('kind')} is not one of the ROOT_* constants")
+    w = m.group("where")
+    w = re.sub(r"\bi (NOT )?IN \(SELECT dst_step FROM pend_blocker\)",
+               lambda mm: ("NOT " if mm.group(1) else "") + "pseudo.has_blocker", w)
+    if "SELECT" in w.upper():
+        raise TranslatorError(f"{what}: sub-select not recognised: {w[:80]}")
+    coq, _ = where_to_coq(w, {("pseudo", "has_blocker"): "B_has_blocker", ("pend_step", "deferred"): "B_ps_deferred",
+                              ("pend_step", "unsafe"): "B_ps_unsafe"}, what)
+    return "K_" + names[int(m.group("kind"))], coq
+
+
+def seeds(pend, kinds):
+    """_INSERT_PEND_SEED_FILE / _RESOURCE: the direct root -> step edges of the exact-count closure."""
+    names = {v: k for k, v in kinds.items()}
+    out = []
+    head = "INSERT INTO pend_seed(root_kind, root_id, dst_step) "
+    for what, text in (("_INSERT_PEND_SEED_FILE", pend._INSERT_PEND_SEED_FILE),
+                       ("_INSERT_PEND_SEED_RESOURCE", pend._INSERT_PEND_SEED_RESOURCE)):
+        text = norm(text)
+        if not text.startswith(head):
+            raise TranslatorError(f"{what}: INSERT target changed")
+        distinct, proj, frm, where = select_parts(text[len(head):], what)
+        if len(proj) != 3 or not re.fullmatch(r"\d+", proj[0]) or int(proj[0]) not in names:
+            raise TranslatorError(f"{what}: projection changed: {proj}")
+        if not distinct:
+            raise TranslatorError(f"{what}: DISTINCT dropped (a pair would be counted twice)")
+        rel = None
+        for name, (f, d, s_, lab, _) in RELATIONS.items():
+            if (f, d, s_) == (frm, proj[2], proj[1]):
+                rel = name
+        if rel is None or rel.split("/")[0] not in ("RDeadFile", "RResource"):
+            raise TranslatorError(f"{what}: FROM clause / projected columns not in the catalogue: {frm[:90]}")
+        coq, _ = _arm_where(rel, where, what)
+        out.append((rel.split("/")[0], "K_" + names[int(proj[0])], coq))
+    return out
+
+
+_TABLE_WRITE = re.compile(r"^INSERT INTO (pend_\w+)")
+_TABLE_READ = re.compile(r"\b(?:FROM|JOIN) (pend_\w+)")
+
+
+def exec_order(pend):
+    """The INSERT statements _analyze_pending executes, in order; the order must respect the data flow between
+    the scratch tables (a statement that reads pend_X runs after every other statement that fills pend_X).  Any
+    order with that property gives the same tables, so a harmless reordering is accepted."""
+    tree = parse_module(f"{CORE}/pending.py")
+    fn = find_function(tree, "_analyze_pending")
+    calls = []
+    for n in ast.walk(fn):
+        if isinstance(n, ast.Call) and ast.unparse(n.func) == "db.execute" and n.args \
+                and isinstance(n.args[0], ast.Name) and n.args[0].id.startswith("_INSERT"):
+            params = [ast.unparse(a) for a in n.args[1:]]
+            calls.append((n.lineno, n.col_offset, n.args[0].id, params))
+    calls.sort()
+    order = [c[2] for c in calls]
+    if len(set(order)) != len(order):
+        raise TranslatorError(f"_analyze_pending executes a statement twice: {order}")
+    info = {}
+    for _, _, name, params in calls:
+        text = norm(getattr(pend, name))
+        w = _TABLE_WRITE.match(text)
+        if not w:
+            raise TranslatorError(f"{name}: not an INSERT INTO pend_*")
+        nparam = text.count("?")
+        if (nparam, params) not in ((0, []), (1, ["(threshold,)"])):
+            raise TranslatorError(f"{name}: {nparam} placeholder(s) but parameters {params}")
+        info[name] = (w.group(1), set(_TABLE_READ.findall(text)))
+    for k, name in enumerate(order):
+        _, reads = info[name]
+        for later in order[k + 1:]:
+            if info[later][0] in reads:
+                raise TranslatorError(f"_analyze_pending: {name} reads {info[later][0]} before {later} has filled it")
+    return order, info
+
+
+def analyze_structure():
+    """Shape of _analyze_pending around the statements: threshold / ntotal, early return, drop - try - create -
+    inserts - results - finally drop."""
+    tree = parse_module(f"{CORE}/pending.py")
+    fn = find_function(tree, "_analyze_pending")
+    body = body_without_docstring(fn)
+    src = [ast.unparse(s_) for s_ in body]
+    need = ["db = workflow.db", "threshold = workflow.need_threshold.value",
+            "ntotal = db.execute(_SELECT_NTOTAL, (threshold,)).fetchone()[0]"]
+    if src[:3] != need:
+        raise TranslatorError(f"_analyze_pending: preamble changed: {src[:3]}")
+    if not (isinstance(body[3], ast.If) and ast.unparse(body[3].test) == "ntotal == 0"
+            and isinstance(body[3].body[-1], ast.Return)):
+        raise TranslatorError("_analyze_pending: the `ntotal == 0` early return changed")
+    if src[4] != "_drop_pend_tables(db)" or not isinstance(body[5], ast.Try) or len(body) != 6:
+        raise TranslatorError("_analyze_pending: expected drop, then try/finally")
+    tr = body[5]
+    if tr.handlers or [ast.unparse(s_) for s_ in tr.finalbody] != ["_drop_pend_tables(db)"]:
+        raise TranslatorError("_analyze_pending: try has handlers or the finally block changed")
+    first = ast.unparse(tr.body[0])
+    if first != "for stmt in _CREATE_PEND_TABLES:\n    db.execute(stmt)":
+        raise TranslatorError("_analyze_pending: the scratch tables are not created first")
+    if not isinstance(tr.body[-1], ast.Return) or ast.unparse(tr.body[-1]) != "return (summary, attributed_totals)":
+        raise TranslatorError("_analyze_pending: result changed")
+    totals = [ast.unparse(s_) for s_ in tr.body if isinstance(s_, ast.Assign)
+              and ast.unparse(s_.targets[0]) == "attributed_totals"]
+    if totals != ["attributed_totals = dict(db.execute('SELECT root_kind, COUNT(*) FROM pend_attributed GROUP BY root_kind'))"]:
+        raise TranslatorError(f"_analyze_pending: attributed_totals changed: {totals}")
+    # inserts come before the first read of the results
+    kinds_seen, phase = [], 0
+    for s_ in tr.body[1:]:
+        txt = ast.unparse(s_)
+        is_insert = txt.startswith("db.execute(_INSERT")
+        if is_insert and phase == 1:
+            raise TranslatorError("_analyze_pending: an INSERT statement runs after the results are read")
+        if not is_insert:
+            phase = 1
+    return True
+
+
 def generate_lines(kinds: dict[str, int]) -> list[str]:
     """Gallina definitions for gen/GenPending.v (after the K_* constants)."""
     from .astutil import coq_str
@@ -474,6 +636,10 @@ def generate_lines(kinds: dict[str, int]) -> list[str]:
     res = resource(pend)
     live = dead_file(pend)
     bw, cw, fields = buckets(kinds)
+    aseed, ajoin = attributed(pend)
+    useed, ucont, ustop = unsafe_anc(pend)
+    rkind, rwhere = runnable(pend, kinds)
+    seed_arms = seeds(pend, kinds)
 
     def arm_list(arms):
         return "[\n" + ";\n".join(f"  mk_arm {r} {k}\n    {w}" for r, k, w in arms) + "\n]"
@@ -490,6 +656,18 @@ def generate_lines(kinds: dict[str, int]) -> list[str]:
         f"Definition gen_live_producer : sexpr bcol :=\n  {live}.",
         f"Definition gen_step_block_arms : list arm := {arm_list(sb)}.",
         f"Definition gen_blocker_arms : list arm := {arm_list(arms)}.",
+        "(* _INSERT_PEND_UNSAFE_ANC: seed, continue-through and stop conditions of the creator walk *)",
+        f"Definition gen_anc_seed_where : sexpr bcol :=\n  {useed}.",
+        f"Definition gen_anc_cont_where : sexpr pscol :=\n  {ucont}.",
+        f"Definition gen_anc_stop_where : sexpr pscol :=\n  {ustop}.",
+        "(* _INSERT_PEND_BLOCKER_RUNNABLE *)",
+        f"Definition gen_runnable_kind : N := {rkind}.",
+        f"Definition gen_runnable_where : sexpr bcol :=\n  {rwhere}.",
+        "(* _INSERT_PEND_SEED_FILE / _INSERT_PEND_SEED_RESOURCE *)",
+        f"Definition gen_seed_arms : list arm := {arm_list(seed_arms)}.",
+        "(* _INSERT_PEND_ATTRIBUTED: seed rows and the join of the recursive step *)",
+        f"Definition gen_attr_seed_where : sexpr wcol :=\n  {aseed}.",
+        f"Definition gen_attr_join : sexpr wcol :=\n  {ajoin}.",
         f"Definition gen_bucket_where : sexpr acol :=\n  {bw}.",
         f"Definition gen_cyclic_where : sexpr acol :=\n  {cw}.",
         "(* _analyze_pending: which query fills which field of PendingSummary (None = _cyclic_bucket) *)",
